@@ -360,6 +360,64 @@ Section WithHome.
   End Codec.
 End WithHome.
 
+(* ---- histories of saves and external changes ---- *)
+Lemma assoc_del_other (p q : path) (l : list (path * bytes)) : q <> p ->
+  assoc str_eqb q (assoc_del str_eqb p l) = assoc str_eqb q l.
+Proof.
+  intro Hn. induction l as [|[k v] l IH]; cbn; [reflexivity|].
+  destruct (str_eqb p k) eqn:E; cbn.
+  - apply sv_str_eqb_eq in E. subst k. apply sv_str_eqb_neq in Hn. rewrite Hn. reflexivity.
+  - destruct (str_eqb q k); [reflexivity | exact IH].
+Qed.
+
+Section Histories.
+  Variable home : str.
+
+  (* the step changes (or may change) the content of q: an external change of q, or a save that
+     RETURNS and whose expanded destination is q.  A save that fails writes to no existing file. *)
+  Definition writes_to (w : world) (s : sstep) (q : path) : Prop :=
+    match s with
+    | SExt p _ => p = q
+    | SSave cfg dest fmt => snd (do_step home w s) = Ok tt /\ expanduser home dest = Ok q
+    end.
+  Fixpoint untouched (w : world) (steps : list sstep) (q : path) : Prop :=
+    match steps with
+    | [] => True
+    | s :: r => ~ writes_to w s q /\ untouched (fst (do_step home w s)) r q
+    end.
+
+  Lemma do_step_preserves w s q b :
+    lookup w q = Some b -> ~ writes_to w s q -> lookup (fst (do_step home w s)) q = Some b.
+  Proof.
+    intros Hq Hw. destruct s as [cfg dest fmt | p c].
+    - cbn [do_step writes_to] in *.
+      destruct (save home (with_log w []) cfg dest fmt) as [w' r] eqn:S. cbn [fst snd] in *.
+      assert (r = Ok tt \/ r <> Ok tt) as [-> | Hr].
+      { destruct r as [[]| |]; [left; reflexivity | right; discriminate | right; discriminate]. }
+      + apply save_ok in S. destruct S as (p & w1 & content & Ex & _ & _ & Pres & _).
+        apply Pres; [|exact Hq]. intro E. subst q. apply Hw. split; [reflexivity | exact Ex].
+      + eapply save_not_ok_preserves; [exact S | exact Hr | exact Hq].
+    - cbn [do_step writes_to fst] in *. unfold lookup, ext_change. cbn [sv_files with_log].
+      assert (q <> p) as Hn by (intro; apply Hw; congruence).
+      destruct c; [rewrite assoc_set_other by exact Hn | rewrite assoc_del_other by exact Hn]; exact Hq.
+  Qed.
+
+  (* over any history -- saves failing at any step, succeeding, files changed by others in between -- a
+     file keeps its bytes unless someone else changed it or a save that RETURNED had it as destination:
+     no number of failed saves damages a previously saved configuration *)
+  Lemma history_preserves : forall steps w q b,
+    lookup w q = Some b -> untouched w steps q -> lookup (run_steps home w steps) q = Some b.
+  Proof.
+    induction steps as [|s r IH]; intros w q b Hq Hu; cbn [run_steps]; [exact Hq|].
+    destruct Hu as [H1 H2]. apply IH; [|exact H2]. apply do_step_preserves; assumption.
+  Qed.
+
+  (* every step of a history is a `save` from the file system alone: the per-save theorems apply to it *)
+  Lemma history_step_is_save w cfg dest fmt :
+    do_step home w (SSave cfg dest fmt) = save home (with_log w []) cfg dest fmt.
+  Proof. reflexivity. Qed.
+End Histories.
+
 (* ---- the theorems depend on where the open is: the streaming variant damages the file ---- *)
 Definition ex_world : world :=
   {| sv_files := [(sa "dest", hx "01020304")]; sv_nowrite := []; sv_rng := []; sv_log := [] |}.
@@ -416,3 +474,15 @@ Proof. eexists. split; [vm_compute; reflexivity|]. split; vm_compute; reflexivit
 Example save_fails_as_serialisation_ex :
   dumps (sa "h") ex_world ex_cfg (Some ex_fmt) = (ex_world, Err (EValidation (sa "b"))).
 Proof. vm_compute. reflexivity. Qed.
+
+(* premises of history_preserves: a destination survives two failed saves and the rotation of a key file *)
+Example history_preserves_ex :
+  let steps := [SSave ex_cfg (sa "dest") (Some ex_fmt); SExt (sa "key") (Some (hx "0102"));
+                SSave ex_cfg (sa "dest") None] in
+  lookup ex_world (sa "dest") = Some (hx "01020304") /\ untouched (sa "h") ex_world steps (sa "dest").
+Proof.
+  split; [vm_compute; reflexivity|]. cbn [untouched]. repeat split.
+  - intros [H _]. vm_compute in H. discriminate.
+  - intro H. vm_compute in H. discriminate.
+  - intros [H _]. vm_compute in H. discriminate.
+Qed.
